@@ -126,6 +126,9 @@ def run_verus_unit(res, unit_name, src_root, allow):
     info['types'] = u.types
     info['call_site_audits'] = u.audits
     info['hint_anchors_lost'] = u.anchors_lost
+    info['assumed_contracts'] = u.assumed
+    for a in u.assumed:
+        res.trusted.append('%s: ASSUMED contract on %s (%s) - body not verified' % (unit_name, a['fn'], a['file']))
     info['functions'] = [f['fn'] for f in u.functions]
 
 
